@@ -1,6 +1,7 @@
 package worker
 
 import (
+	"os"
 	"context"
 	"crypto/sha256"
 	"encoding/hex"
@@ -144,6 +145,9 @@ func simMesh(variant int) *meshconfig.MeshConfig {
 // bootstrap.initMeshHandlers installs) then requests the forced global push.
 func (i *wisInstance) setMesh(variant int) {
 	i.opts.meshVariant = variant
+	if os.Getenv("VERIF_DEBUG_MESH") != "" {
+		fmt.Fprintf(os.Stderr, "debug-mesh: %s setMesh(%d) at %s\n", i.name, variant, time.Now().Format("15:04:05.000"))
+	}
 	i.fds.Env().Watcher.(meshwatcher.TestWatcher).Set(simMesh(variant))
 }
 
@@ -181,6 +185,9 @@ func newWisInstance(t *testing.T, name string, o wisOpts) *wisInstance {
 	features.EnableXDSCaching = prevCache
 	// what bootstrap.initMeshHandlers does: a mesh configuration change requests a forced global push
 	fds.Env().AddMeshHandler(func() {
+		if os.Getenv("VERIF_DEBUG_MESH") != "" {
+			fmt.Fprintf(os.Stderr, "debug-mesh: %s handler fires at %s, otp=%v\n", name, time.Now().Format("15:04:05.000"), fds.Env().Mesh().GetOutboundTrafficPolicy().GetMode())
+		}
 		fds.Discovery.ConfigUpdate(&model.PushRequest{Reason: model.NewReasonStats(model.GlobalUpdate), Forced: true})
 	})
 	// The connection rate limit is derived from GOMAXPROCS at process start; it belongs to no property and would make
